@@ -6,6 +6,7 @@ import (
 	"fmt"
 	"os"
 	"path/filepath"
+	"runtime/pprof"
 	"sort"
 	"strconv"
 	"strings"
@@ -48,6 +49,16 @@ func main() {
 	}
 	switch os.Args[1] {
 	case "check":
+		if pf := os.Getenv("GOCV_PROF"); pf != "" {
+			f, _ := os.Create(pf)
+			pprof.StartCPUProfile(f)
+			go func() {
+				time.Sleep(30 * time.Second)
+				pprof.StopCPUProfile()
+				f.Close()
+				os.Exit(9)
+			}()
+		}
 		os.Exit(cmdCheck(os.Args[2:]))
 	case "dump":
 		cmdDump(os.Args[2:])
